@@ -205,13 +205,11 @@ impl Array6 {
 
         // Read packed byte array from offset HLL_BYTE_ARR_START
         let mut data = vec![0u8; num_bytes];
-        if !compact {
-            cursor
-                .read_exact(&mut data)
-                .map_err(insufficient_data("data"))?;
-        } else {
-            cursor.advance(num_bytes as u64);
-        }
+        // The register array is present in compact and updatable images alike.
+        let _ = compact;
+        cursor
+            .read_exact(&mut data)
+            .map_err(insufficient_data("data"))?;
 
         // Create estimator and restore state
         let mut estimator = HipEstimator::new(lg_config_k);
@@ -220,12 +218,20 @@ impl Array6 {
         estimator.set_kxq1(kxq1);
         estimator.set_out_of_order(ooo);
 
-        Ok(Self {
+        let array = Self {
             lg_config_k,
             bytes: data.into_boxed_slice(),
             num_zeros,
             estimator,
-        })
+        };
+        // Updates decrement num_zeros whenever a zero register is hit, so it must be exact.
+        let actual_zeros = (0..k).filter(|&slot| array.get_raw(slot) == 0).count() as u32;
+        if actual_zeros != num_zeros {
+            return Err(Error::deserial(format!(
+                "num_zeros is {num_zeros} but {actual_zeros} registers are zero"
+            )));
+        }
+        Ok(array)
     }
 
     /// Serialize Array6 to bytes
